@@ -113,6 +113,13 @@ def parseTx (t : List String) : Option Tx :=
   | "rawtd" :: signer :: _ => some (.bvm signer "?" "?" [])
   | _ => none
 
+/-- `sig:nofrom`: the transaction has no sender; the executor only answers with a failed receipt and charges nobody.
+The model has no sender-less transaction: it is given the empty account (balance 0, so the fee step finds nothing to take) -/
+def noSender : Tx → Tx
+  | .xfer _ t a => .xfer "" t a
+  | .ibtp _ i p => .ibtp "" i p
+  | .bvm _ c m a => .bvm "" c m a
+
 def splitTxs (ws : List String) : List (List String) :=
   let (acc, cur) := ws.foldl (fun (p : List (List String) × List String) w =>
     if w == "|" then (if p.2.isEmpty then p.1 else p.1 ++ [p.2], []) else (p.1, p.2 ++ [w])) ([], [])
@@ -156,7 +163,9 @@ def step (s : St) (ws : List String) : St × String :=
     -- `sig:<kind> <tx>`: the transaction is not local, its signature is verified; every kind but `ok` is an invalid signature
     let parseSigned (t : List String) : Option (Tx × Bool) :=
       match t with
-      | k :: inner => if k.startsWith "sig:" then (parseTx inner).map (fun x => (x, k == "sig:ok")) else (parseTx t).map (fun x => (x, true))
+      | k :: inner =>
+        if k == "sig:nofrom" then (parseTx inner).map (fun x => (noSender x, false))
+        else if k.startsWith "sig:" then (parseTx inner).map (fun x => (x, k == "sig:ok")) else (parseTx t).map (fun x => (x, true))
       | [] => none
     let txs := (splitTxs rest).map parseSigned
     if txs.all Option.isSome then
